@@ -414,7 +414,7 @@ static void conformability(int bound, unsigned long long& unit)
 int main(int argc, char** argv)
 {
 	mc::init(argc, argv);
-	if(mc::ctx().replay) { printf("%s\n", mc::ctx().replay_case.c_str()); return 0; }
+	if(mc::ctx().replay) { printf("%s\n(no single-case replay for this part; use ./vcheck --replay <file>, which re-runs the enumeration for this key)\n", mc::ctx().replay_case.c_str()); return 0; }
 	int bound = mc::thorough() ? 8 : 5;
 	mc::bound("rule", "every shape triple (m,n,k) up to the bound x every ordered pair of 7 deterministic fill patterns over half-integers / powers of two (all arithmetic exact, all oracles equalities); every ordered pair of shapes for +,-,+=,-= in child processes under ASan/UBSan; a case is one (shape triple, pattern pair); non-trivial = at least one dimension differs from the others (non-square operands)");
 	mc::bound("shape_bound", std::to_string(bound));
